@@ -808,7 +808,11 @@ func c09Child(cs C09Case, dir string) (res *c09Result, died bool, ordinal int, m
 	arg, _ := json.Marshal(cs)
 	progress := filepath.Join(dir, "c09-progress.json")
 	os.Remove(progress)
-	cmd := exec.Command(filepath.Join(kit.VerifDir, "bin", "worker"), "C09-child", string(arg), progress)
+	self, err := os.Executable() // the very binary that is running (not whatever bin/worker is by now)
+	if err != nil {
+		self = filepath.Join(kit.VerifDir, "bin", "worker")
+	}
+	cmd := exec.Command(self, "C09-child", string(arg), progress)
 	cmd.Env = append(os.Environ(), "GOMAXPROCS=2", "GOGC=100")
 	var stderr bytes.Buffer
 	cmd.Stderr = &stderr
